@@ -1511,7 +1511,8 @@ Definition msorted (snap : list ev) : Prop := StronglySorted N.lt (map (fun m =>
 
 (* what a finished job looks like in the stream *)
 Definition ended_ok (l : list ev) (j st : N) (made : list created) : Prop :=
-  st = 0 /\ exists planned, spawned_with l j planned /\ map ckey made = map pkey (plan_sort planned) /\ made_in l made.
+  st = 0 /\ exists planned, (spawned_with l j planned /\ plan_ok planned l)
+                             /\ map ckey made = map pkey (plan_sort planned) /\ made_in l made.
 Definition job_consistent (l : list ev) : Prop :=
   forall e j st made, In e l -> ebody e = BJobEnded j st made -> ended_ok l j st made.
 
@@ -1520,10 +1521,10 @@ Definition actor_ok (l : list ev) (a : astate) : Prop :=
   | ASpawn _ _ plan2 _ _ => plan_ok plan2 l
   | ADecide _ pl _ j | ASnap _ pl j => plan_ok pl l /\ spawned_with l j pl
   | ACut _ j snap todo made =>
-      exists planned, spawned_with l j planned /\ map ckey made ++ map pkey todo = map pkey (plan_sort planned)
+      exists planned, (spawned_with l j planned /\ plan_ok planned l) /\ map ckey made ++ map pkey todo = map pkey (plan_sort planned)
                       /\ msorted snap /\ plan_ok todo snap /\ made_in l made
   | AWrite _ j snap p _ rest made =>
-      exists planned, spawned_with l j planned /\ map ckey made ++ map pkey (p :: rest) = map pkey (plan_sort planned)
+      exists planned, (spawned_with l j planned /\ plan_ok planned l) /\ map ckey made ++ map pkey (p :: rest) = map pkey (plan_sort planned)
                       /\ msorted snap /\ plan_ok (p :: rest) snap /\ made_in l made
   | AEnd _ j status made _ => ended_ok l j status made
   | _ => True
@@ -1540,7 +1541,7 @@ Qed.
 Lemma ended_ok_mono l fr j st made : ended_ok l j st made -> ended_ok (l ++ fr) j st made.
 Proof.
   intros [H0 [pl [H1 [H2 H3]]]]. split; [exact H0|]. exists pl.
-  split; [apply spawned_with_mono, H1|]. split; [exact H2 | apply made_in_mono, H3].
+  split; [split; [apply spawned_with_mono, H1 | apply plan_ok_mono, H1]|]. split; [exact H2 | apply made_in_mono, H3].
 Qed.
 Lemma actor_ok_mono l fr a : actor_ok l a -> actor_ok (l ++ fr) a.
 Proof.
@@ -1548,9 +1549,9 @@ Proof.
   - apply plan_ok_mono.
   - intros [H1 H2]. split; [apply plan_ok_mono, H1 | apply spawned_with_mono, H2].
   - intros [H1 H2]. split; [apply plan_ok_mono, H1 | apply spawned_with_mono, H2].
-  - intros [pl [H1 [H2 [H3 [H4 H5]]]]]. exists pl. split; [apply spawned_with_mono, H1|]. split; [exact H2|].
+  - intros [pl [H1 [H2 [H3 [H4 H5]]]]]. exists pl. split; [split; [apply spawned_with_mono, H1 | apply plan_ok_mono, H1]|]. split; [exact H2|].
     split; [exact H3|]. split; [exact H4 | apply made_in_mono, H5].
-  - intros [pl [H1 [H2 [H3 [H4 H5]]]]]. exists pl. split; [apply spawned_with_mono, H1|]. split; [exact H2|].
+  - intros [pl [H1 [H2 [H3 [H4 H5]]]]]. exists pl. split; [split; [apply spawned_with_mono, H1 | apply plan_ok_mono, H1]|]. split; [exact H2|].
     split; [exact H3|]. split; [exact H4 | apply made_in_mono, H5].
   - apply ended_ok_mono.
 Qed.
@@ -1628,7 +1629,7 @@ Proof.
   - (* ASnap *)
     cbn [actor_ok] in Ha. destruct Ha as [H1 H2].
     exists []. rewrite app_nil_r. cbn [fst snd actor_ok]. split; [reflexivity|]. split; [|intros e j0 st made []].
-    exists todo. split; [exact H2|]. split; [reflexivity|]. split; [apply valid_msgs_sorted, Hv|].
+    exists todo. split; [split; [exact H2 | exact H1]|]. split; [reflexivity|]. split; [apply valid_msgs_sorted, Hv|].
     split; [eapply plan_ok_perm; [apply plan_sort_perm | exact H1] | intros c0 []].
   - (* ACut *)
     cbn [actor_ok] in Ha. destruct Ha as [pl [H1 [H2 [H3 [H4 H5]]]]].
@@ -1645,7 +1646,7 @@ Proof.
     exists [{| eseq := next_seq (log s); eid := fresh_id (log s);
                ebody := BCkpt (rule_stride (c_stride c)) (fresh_art s) (pl_seq p) (Some (pl_mid p)) |}].
     split; [reflexivity|]. split; [|intros e j0 st made0 [<-|[]] Hb; discriminate].
-    cbn [actor_ok]. exists pl. split; [apply spawned_with_mono, H1|]. split.
+    cbn [actor_ok]. exists pl. split; [split; [apply spawned_with_mono, H1 | apply plan_ok_mono, H1]|]. split.
     { rewrite map_app, <- app_assoc. cbn [map app] in *. exact H2. }
     split; [exact H3|]. split; [intros q Hq; apply H4; right; exact Hq|].
     intros c0 Hc0. apply in_app_or in Hc0. destruct Hc0 as [Hc0|[<-|[]]].
@@ -1737,4 +1738,120 @@ Proof.
   exact (concurrent_jobs_create_announced real_consts mm_state
            [SCall {| c_sched := true; c_stride := 1; c_maxnew := 1; c_block := false; c_exec := true |};
             SCall {| c_sched := false; c_stride := 1; c_maxnew := 1; c_block := false; c_exec := true |}] s' acts' Hv Hj H).
+Qed.
+
+(* ---------- concurrent calls: every checkpoint frame they append references a readable summary of matching coverage ---------- *)
+Definition awrite_ok (a : astate) : Prop := match a with AWrite _ _ _ p v _ _ => covers v p | _ => True end.
+Definition good_ckpts (s : st) (l : list ev) : Prop :=
+  forall e r a ts tm, In e l -> ebody e = BCkpt r a ts (Some tm) ->
+    exists v, art_read s a = Some v /\ su_to_seq v = ts /\ su_to_mid v = Some tm.
+
+Lemma cut_read_covers K snap s p v : cut_read K snap s p = Ok v -> covers v p.
+Proof.
+  unfold cut_read. destruct (select_base K (log s) snap (pl_seq p)) as [b base_to].
+  assert (Hfin : forall base bootstrap note used,
+      match nth_error (msg_full snap) (upper_bound (msg_full snap) (pl_seq p) - 1) with
+      | None => Err 20
+      | Some (ls, lid, _) =>
+        if (ls =? pl_seq p) && (lid =? pl_mid p) then
+          Ok {| su_to_seq := pl_seq p; su_to_mid := Some (pl_mid p); su_base := base; su_note := note; su_kind := 2;
+                su_slice := map snd (skipn (upper_bound (msg_full snap) (if (bootstrap : bool) then 0 else base_to))
+                                           (firstn (upper_bound (msg_full snap) (pl_seq p)) (msg_full snap)));
+                su_base_used := used; su_present := true |}
+        else Err 21
+      end = Ok v -> covers v p).
+  { intros base bootstrap note used.
+    destruct (nth_error (msg_full snap) (upper_bound (msg_full snap) (pl_seq p) - 1)) as [[[ls lid] x]|]; [|discriminate].
+    destruct ((ls =? pl_seq p) && (lid =? pl_mid p)); [|discriminate].
+    intros H. injection H as <-. unfold covers. cbn. auto. }
+  destruct (option_map ck_art b) as [a|]; [|exact (Hfin None true 0 false)].
+  destruct (art_read s a) as [w|]; [|exact (Hfin (Some a) true 2 false)].
+  destruct (su_kind w =? 1); [exact (Hfin (Some a) true 1 false) | exact (Hfin (Some a) false 0 true)].
+Qed.
+
+Lemma art_get_app_some a m extra v : art_get a m = Some v -> art_get a (m ++ extra) = Some v.
+Proof.
+  induction m as [|[k w] m IH]; [discriminate|]. cbn [app art_get]. destruct (k =? a); [exact (fun H => H) | exact IH].
+Qed.
+
+Lemma good_ckpts_same_arts s s' l : arts s' = arts s -> good_ckpts s l -> good_ckpts s' l.
+Proof.
+  intros Ha H e r a ts tm Hin Hb. destruct (H e r a ts tm Hin Hb) as [v Hv]. exists v.
+  unfold art_read in *. rewrite Ha. exact Hv.
+Qed.
+Lemma good_ckpts_app s l fr :
+  good_ckpts s l -> (forall e r a ts tm, In e fr -> ebody e <> BCkpt r a ts (Some tm)) -> good_ckpts s (l ++ fr).
+Proof.
+  intros H Hn e r a ts tm Hin Hb. apply in_app_or in Hin. destruct Hin as [Hin|Hin]; [eapply H; eassumption|].
+  exfalso. eapply Hn; eassumption.
+Qed.
+
+Lemma arts_step K s a new :
+  awrite_ok a -> good_ckpts s new ->
+  exists fr, log (fst (astep K s a)) = log s ++ fr /\ awrite_ok (snd (astep K s a))
+             /\ good_ckpts (fst (astep K s a)) (new ++ fr).
+Proof.
+  intros Ha Hg.
+  assert (Hread : forall a', awrite_ok a' ->
+            exists fr, log (fst (s, a')) = log s ++ fr /\ awrite_ok (snd (s, a')) /\ good_ckpts (fst (s, a')) (new ++ fr)).
+  { intros a' Ha'. exists []. rewrite !app_nil_r. cbn [fst snd]. auto. }
+  assert (Happ : forall b a', awrite_ok a' -> (forall r x ts tm, b <> BCkpt r x ts (Some tm)) ->
+            exists fr, log (fst (append s b, a')) = log s ++ fr /\ awrite_ok (snd (append s b, a'))
+                       /\ good_ckpts (fst (append s b, a')) (new ++ fr)).
+  { intros b a' Ha' Hb. eexists. cbn [fst snd]. split; [reflexivity|]. split; [exact Ha'|].
+    apply good_ckpts_app; [eapply good_ckpts_same_arts; [|exact Hg]; reflexivity|].
+    intros e r x ts tm [<-|[]]. cbn [ebody]. apply Hb. }
+  destruct a; unfold astep; cbn [astep_gen].
+  - destruct (c_sched c); [destruct (plan_cuts K (c_stride c) (c_maxnew c) (log s))|]; apply Hread; exact I.
+  - destruct (if c_block c then find_inflight K (log s) else None); apply Hread; exact I.
+  - apply Happ; [exact I | discriminate].
+  - destruct (plan_cuts K (c_stride c) (c_maxnew c) (log s)); apply Hread; exact I.
+  - destruct (c_sched c); (apply Happ; [exact I | discriminate]).
+  - destruct (c_exec c); (apply Happ; [exact I | discriminate]).
+  - apply Hread. exact I.
+  - destruct todo as [|p rest]; [apply Hread; exact I|].
+    destruct (cut_read K snap s p) as [v|e] eqn:E; apply Hread; [|exact I].
+    cbn [awrite_ok]. eapply cut_read_covers, E.
+  - (* AWrite: the artifact is stored under a fresh id and the frame references it *)
+    cbn [awrite_ok] in Ha. cbv beta iota zeta delta [put_art]. cbn [fst snd].
+    eexists. split; [reflexivity|]. split; [exact I|].
+    intros e r x ts tm Hin Hb. apply in_app_or in Hin. destruct Hin as [Hin|[<-|[]]].
+    + destruct (Hg e r x ts tm Hin Hb) as [w [Hw Hf]]. exists w. split; [|exact Hf].
+      unfold art_read in *. unfold append. cbn [arts].
+      destruct (art_get x (arts s)) as [w'|] eqn:Ew; [|discriminate].
+      rewrite (art_get_app_some x (arts s) _ w' Ew). exact Hw.
+    + cbn [ebody] in Hb. injection Hb as _ <- <- <-. exists v.
+      destruct Ha as [H1 [H2 [H3 _]]]. split; [|auto].
+      unfold art_read, append. cbn [arts]. rewrite art_get_app_fresh by (apply fresh_art_not_key). rewrite H3. reflexivity.
+  - apply Happ; [exact I | discriminate].
+  - apply Hread. destruct ms; exact I.
+  - destruct ms as [|[ac co] rest]; [apply Hread; exact I|]. apply Happ; [destruct rest; exact I | discriminate].
+  - apply Hread. exact I.
+Qed.
+
+Definition arts_ok (s0 s : st) (acts : list astate) : Prop :=
+  Forall awrite_ok acts /\ exists new, log s = log s0 ++ new /\ good_ckpts s new.
+
+Lemma arts_ok_step K s0 s pre a post :
+  arts_ok s0 s (pre ++ a :: post) -> arts_ok s0 (fst (astep K s a)) (pre ++ snd (astep K s a) :: post).
+Proof.
+  intros [Hf [new [Hl Hg]]]. apply Forall_app in Hf. destruct Hf as [Hpre Hf]. inversion Hf as [|a0 l0 Ha Hpost]; subst.
+  destruct (arts_step K s a new Ha Hg) as [fr [Hl' [Ha' Hg']]]. split.
+  - apply Forall_app. split; [exact Hpre|]. constructor; assumption.
+  - exists (new ++ fr). split; [rewrite Hl', Hl, app_assoc; reflexivity | exact Hg'].
+Qed.
+
+Theorem arts_ok_steps K s0 x y : sys_steps K x y -> arts_ok s0 (fst x) (snd x) -> arts_ok s0 (fst y) (snd y).
+Proof.
+  induction 1 as [|x y z H1 H2 IH]; intros H; [exact H|]. apply IH. destruct H1. cbn [fst snd] in *.
+  apply arts_ok_step, H.
+Qed.
+
+Theorem concurrent_ckpts_covered K s calls s' acts' :
+  sys_steps K (s, map start_of calls) (s', acts') ->
+  exists new, log s' = log s ++ new /\ good_ckpts s' new.
+Proof.
+  intros H. apply (arts_ok_steps K s _ _ H). cbn [fst snd]. split.
+  - clear H. induction calls as [|c r IH]; [constructor|]. constructor; [destruct c; exact I | exact IH].
+  - exists []. rewrite app_nil_r. split; [reflexivity|]. intros e r a ts tm [].
 Qed.
